@@ -22,6 +22,14 @@ def run(ctx) -> None:
     from .common import memo_rule
 
     ctx.guard("C19.fresh-result", memo_rule, "C19.fresh-result", ("robotools/utils.py",))
+    ctx.guard("C19.cycle", _buffers)
+
+
+def _buffers(ctx) -> None:
+    from .common import buffer_dtype_rule
+
+    if buffer_dtype_rule(ctx, "C19.cycle", ("get_trough_wells",), ("trough_wells",)) == 0:
+        ctx.rep.holds("C19.cycle", "get_trough_wells/no-typed-buffer", "the wells are not copied into a fixed-width string buffer")
 
 
 def _modulo_cycle(fv, rn):
@@ -75,6 +83,8 @@ def check(ctx) -> None:
     N = Poly.symbol(ast.Name(id="n", ctx=ast.Load()))
     # ---- guards
     type_ok = neg_ok = empty_ok = False
+    recognised = set()
+    all_guards = [g_ for g_ in fv.raising_guards() if fv.cfg.dominates(g_[0].id, rn.id)]
     for n, test, pol, r in fv.raising_guards():
         if not fv.cfg.dominates(n.id, rn.id):
             continue
@@ -87,16 +97,33 @@ def check(ctx) -> None:
             types = core.args[1]
             names = {getattr(e, "id", getattr(e, "attr", "?")) for e in (types.elts if isinstance(types, ast.Tuple) else [types])}
             type_ok = names <= {"int", "integer", "Integral"} and "int" in names | {"int"} and cls == "TypeError"
+            recognised.add(n.id)
         cm = to_cmp(core, p)
         if cm is not None and cm == Cmp(-N, ">") and cls == "ValueError":
             neg_ok = True
+            recognised.add(n.id)
         if cm is not None and cls == "ValueError":
             # len(L) == 0  /  not L
             for side in (core.left, core.comparators[0]) if isinstance(core, ast.Compare) else ():
                 if call_fname(side) == "len" and side.args and is_name(strip_norm(side.args[0]), "trough_wells") and isinstance(core.ops[0], ast.Eq):
                     empty_ok = True
+                    recognised.add(n.id)
         if isinstance(core, ast.Name) and not p and cls == "ValueError":
-            empty_ok = empty_ok or is_name(strip_norm(core), "trough_wells")
+            if is_name(strip_norm(core), "trough_wells"):
+                empty_ok = True
+                recognised.add(n.id)
+    # nothing else is turned away: any n >= 0 and any non-empty collection of wells is a valid request
+    for n, test, pol, r in all_guards:
+        if n.id in recognised:
+            continue
+        rt = fv.res.resolve(test, n.id)
+        about_wells = any(isinstance(x, ast.Name) and x.id == "trough_wells" for x in ast.walk(rt))
+        about_n = any(isinstance(x, ast.Name) and x.id == "n" for x in ast.walk(rt))
+        if about_wells or about_n:
+            ctx.rep.refuted("C19.guards", f"{f.qualname}/extra-rejection[{show(rt)[:30]}]", f"requests are additionally rejected when `{show(rt)[:70]}` "
+                            f"({raise_class(fv, r)[0]}): valid numbers of wells / valid well collections are turned away", where=f.where(n.ast))
+        else:
+            ctx.rep.inconclusive("C19.guards", f"{f.qualname}/extra-rejection[{show(rt)[:30]}]", f"unrecognised rejection `{show(rt)[:70]}`", where=f.where(n.ast))
     ctx.rep.check(type_ok, "C19.guards", f"{f.qualname}/type", "non-integer n raises TypeError", "a non-integer n is not rejected (isinstance(n, int) else TypeError) before the result is built", where=w)
     ctx.rep.check(neg_ok, "C19.guards", f"{f.qualname}/negative", "negative n raises ValueError", "a negative n is not rejected with ValueError (a negative slice bound silently returns a truncated list)", where=w)
     ctx.rep.check(empty_ok, "C19.guards", f"{f.qualname}/empty", "an empty well list raises ValueError", "an empty well collection is not rejected with ValueError", where=w)
